@@ -4,8 +4,8 @@
    (regenerated from serial/frame.rs::length_mode). Spec: Spec/Framing.v `ref_rtu_frames`,
    `rtu_frame_of`. A byte is an N below 256 (`bytes`). *)
 From Coq Require Import NArith List.
-From Rodbus Require Import Base.Outcome Base.Cursor Base.Frame Gen.RtuLengths Model.Crc Model.Reader Model.Format Spec.Framing
-  Proofs.CrcProofs Proofs.RtuProofs Proofs.C06Proofs.
+From Rodbus Require Import Base.Outcome Base.Cursor Base.Frame Gen.RtuLengths Model.Buffer Model.Rtu Model.Crc Model.Reader Model.Format Spec.Framing
+  Proofs.BufferProofs Proofs.ReaderGeneric Proofs.CrcProofs Proofs.RtuProofs Proofs.C06Proofs.
 Import ListNotations.
 
 (* Every frame written by format_rtu_pdu (any destination, any function byte, any body serializer
@@ -102,6 +102,49 @@ Theorem C06_accept : forall p addr pdu chunks fi,
   ([IFrame {| f_tx := None; f_dest := addr; f_bcast := N.eqb addr 0; f_pdu := pdu |}], end_of fi).
 Proof. exact rtu_accept. Qed.
 Print Assumptions C06_accept.
+
+(* CANCEL-SAFETY (both parser roles), as C05_cancel_safe: a next_frame call abandoned while it waits,
+   followed by a fresh call from the reader it left behind = one uninterrupted call. For every
+   reachable reader state and every split n1 ++ n2 of a schedule of bytes. *)
+Theorem C06_cancel_safe : forall p st b n1 n2 fi r1 n1',
+  wf b -> bytes (b_pend b) -> Forall bytes n1 -> Forall bytes n2 -> rst_ok st ->
+  next_frame (nf_fuel n1) {| r_parser := PRtu p st; r_buf := b |} n1 FinPending = (r1, n1', NfEnd EndPending) ->
+  next_frame (nf_fuel n2) r1 n2 fi = next_frame (nf_fuel (n1 ++ n2)) {| r_parser := PRtu p st; r_buf := b |} (n1 ++ n2) fi /\
+  n1' = [] /\ exists st1 b1, r1 = {| r_parser := PRtu p st1; r_buf := b1 |} /\ wf b1 /\ bytes (b_pend b1) /\ rst_ok st1.
+Proof. exact rtu_cancel_safe. Qed.
+Print Assumptions C06_cancel_safe.
+
+Theorem C06_cancel_safe_session : forall p chunks fi, Forall bytes chunks ->
+  run_cancel (reader_new (kind_of p)) chunks fi = run_session (kind_of p) false chunks fi.
+Proof. exact rtu_cancel_safe_session. Qed.
+Print Assumptions C06_cancel_safe_session.
+
+(* COMPOSITIONALITY (Spec and reader), as C05_spec_app / C05_continue_* *)
+Theorem C06_spec_app : forall r s1 s2 fi,
+  ref_rtu_frames r (s1 ++ s2) fi =
+  match ref_rtu_frames r s1 FinPending with
+  | (fs1, EndPending) => (fs1 ++ fst (ref_rtu_frames r (rtu_tail r s1 ++ s2) fi), snd (ref_rtu_frames r (rtu_tail r s1 ++ s2) fi))
+  | x => x
+  end.
+Proof. exact ref_rtu_frames_app. Qed.
+Print Assumptions C06_spec_app.
+
+Theorem C06_continue_fresh : forall p, rtu_reader_represents p (reader_new (kind_of p)) [].
+Proof. exact rtu_represents_fresh'. Qed.
+Print Assumptions C06_continue_fresh.
+Theorem C06_continue_run : forall p r t n fi, rtu_reader_represents p r t -> Forall bytes n ->
+  run_reader (run_fuel r n) false r n fi =
+    (map IFrame (fst (ref_rtu_frames (role_of p) (t ++ fst (sched_stream n fi)) (snd (sched_stream n fi)))),
+     snd (ref_rtu_frames (role_of p) (t ++ fst (sched_stream n fi)) (snd (sched_stream n fi)))).
+Proof. intros p r t n fi H Hb. rewrite ReaderGeneric.sched_stream_eq. exact (proj1 (rtu_run_represents' p r t n fi H Hb)). Qed.
+Print Assumptions C06_continue_run.
+Theorem C06_continue_step : forall p r t n r1 l1, rtu_reader_represents p r t -> Forall bytes n ->
+  run_reader_st (run_fuel r n) r n FinPending = (r1, (l1, EndPending)) ->
+  rtu_reader_represents p r1 (rtu_tail (role_of p) (t ++ fst (sched_stream n FinPending))) /\
+  l1 = map IFrame (fst (ref_rtu_frames (role_of p) (t ++ fst (sched_stream n FinPending)) FinPending)) /\
+  snd (ref_rtu_frames (role_of p) (t ++ fst (sched_stream n FinPending)) FinPending) = EndPending.
+Proof. intros p r t n r1 l1 H Hb E. rewrite ReaderGeneric.sched_stream_eq. exact (rtu_represents_step' p r t n r1 l1 H Hb E). Qed.
+Print Assumptions C06_continue_step.
 
 (* The RTU client (and any other user of one FramedReader across port reopenings that resets it
    at connection start, as ClientLoop::run does): every connection's stream is delimited and
